@@ -220,7 +220,8 @@ class CustomError(Exception):
     pass
 
 
-HOST_KINDS = ['ok', 'ValueError', 'KeyError', 'ZeroDivisionError', 'CustomError', 'TypeError', 'BareScriptRuntimeError', 'not-callable', 'OverflowError']
+HOST_KINDS = ['ok', 'ValueError', 'KeyError', 'ZeroDivisionError', 'CustomError', 'TypeError', 'BareScriptRuntimeError', 'not-callable', 'OverflowError',
+              'MemoryError', 'RecursionError', 'StopIteration', 'AssertionError', 'OSError', 'AttributeError', 'IndexError', 'NotImplementedError', 'Exception']
 
 
 def make_host(kind, tag, calls):
@@ -233,8 +234,7 @@ def make_host(kind, tag, calls):
             return 7.0
         if kind == 'BareScriptRuntimeError':
             raise impl.bs.RuntimeError('host says stop ' + tag)
-        exc = {'ValueError': ValueError, 'KeyError': KeyError, 'ZeroDivisionError': ZeroDivisionError, 'CustomError': CustomError,
-               'TypeError': TypeError, 'OverflowError': OverflowError}[kind]
+        exc = {'CustomError': CustomError}.get(kind) or getattr(__import__('builtins'), kind)
         raise exc('boom ' + tag)
     fn.__name__ = 'host_' + tag
     return fn
@@ -290,6 +290,52 @@ def check_host_failures(kinds, in_function, nested, debug):
         raise Violation('script ended with %r, expected %r' % (res, exp_res), d, 'host-outcome')
     if got_log != exp_log:
         raise Violation('log is %r, expected %r' % (got_log, exp_log), d, 'host-log' + ('-debug' if debug else '-nodebug'))
+
+
+# ---- (f) what library functions return, pushed through every operator ------------------------------------------------------------
+
+RESULT_USES = ["'' + vv", "vv + ''", 'vv == vv', 'vv != ww', 'vv < ww', 'vv >= vv', '!vv', '-vv', 'vv && 1', 'vv || 0', 'vv + 1', 'vv - ww', 'vv * 2', 'vv / 2', 'vv % 2', 'vv ** 2',
+               'jsonStringify(vv)', 'stringNew(vv)', 'systemCompare(vv, ww)', 'systemType(vv)', 'arrayNew(vv, ww) == arrayNew(ww, vv)', 'objectNew(\'k\', vv) == objectNew(\'k\', ww)',
+               'systemBoolean(vv)', 'arrayJoin(arrayNew(vv, ww), \',\')', 'arraySort(arrayNew(ww, vv))', 'arrayIndexOf(arrayNew(ww), vv)']
+_csv_cell = st.sampled_from(['a', 'b', 'a', '', '1', '2.5', 'x y', '"q, r"', '"a"', '2024-01-02', 'null', 'true'])
+_csv_line = st.lists(_csv_cell, min_size=0, max_size=5).map(','.join)
+_csv_text = st.lists(_csv_line, min_size=0, max_size=5).map('\n'.join)
+RESULT_CALLS = st.one_of(
+    _csv_text.map(lambda t: ('dataParseCSV(tt)', {'tt': t})),
+    st.lists(_csv_line, max_size=4).map(lambda ls: ('dataParseCSV(%s)' % ', '.join('t%d' % i for i in range(len(ls))), {'t%d' % i: ln for i, ln in enumerate(ls)})),
+    st.sampled_from([('jsonParse(tt)', {'tt': t}) for t in ['{"a": [1, {"b": null}]}', '[1e400, -1e400]', '{"": 1, "a": {"": []}}', '[[[[[[1]]]]]]', '{"a": 1, "a": 2}', 'NaN', '[Infinity]']] +
+                    [('regexMatch(regexNew(pp), tt)', {'pp': p, 'tt': t}) for p, t in [('(a)(?P<n>b)?', 'xa'), ('(?P<a>.)(?P<b>.)?', 'q'), ('()', ''), ('a|(b)', 'a')]] +
+                    [('regexMatchAll(regexNew(pp), tt)', {'pp': '(a)|(?P<n>b)', 'tt': 'ab-a'}), ('regexSplit(regexNew(pp), tt)', {'pp': '(,)', 'tt': 'a,b'}),
+                     ('schemaParse(tt)', {'tt': 'struct A\n  int a'}), ('dataAggregate(jsonParse(tt), objectNew(\'measures\', arrayNew(objectNew(\'field\', \'a\', \'function\', \'sum\'))))', {'tt': '[{"a": 1}, {"a": null}, {}]'}),
+                     ('dataJoin(jsonParse(tt), jsonParse(tt), \'a\')', {'tt': '[{"a": 1, "a2": 2}, {"a": 1}]'}), ('urlEncode(tt)', {'tt': 'a b\ud800'}), ('stringSplit(tt, \'\')', {'tt': 'abc'}),
+                     ('objectNew(\'a\')', {}), ('arrayNewSize(3, arrayNew())', {}), ('datetimeISOParse(tt)', {'tt': '2024-02-29T12:00:00Z'}), ('numberParseInt(tt)', {'tt': '9' * 400}),
+                     ('systemPartial(systemLog, 1)', {}), ('regexNew(tt)', {'tt': '('}), ('objectAssign(objectNew(), jsonParse(tt))', {'tt': '{"a": {"b": 1}}'})]))
+
+
+def check_result_operators(call, g, use, pick, debug):
+    """vv = <library call>; ww = a second, equal result; then `use`, optionally on an element / member of the result."""
+    d = {'kind': 'result', 'call': call, 'globals': g, 'use': use, 'pick': pick, 'debug': debug}
+    lines = ['vv = ' + call, 'ww = ' + call]
+    if pick == 'first':
+        lines += ['vv = if(systemType(vv) == \'array\', arrayGet(vv, 0), vv)', 'ww = if(systemType(ww) == \'array\', arrayGet(ww, arrayLength(ww) - 1), ww)']
+    elif pick == 'values':
+        lines += ['vv = if(systemType(vv) == \'object\', objectKeys(vv), vv)']
+    lines += ['rr = ' + use, "systemLog('after')", 'return rr']
+    src = '\n'.join(lines)
+    d['source'] = src
+    log = []
+    opts = {'globals': dict(g), 'logFn': log.append, 'maxStatements': 1000}
+    if debug:
+        opts['debug'] = True
+    model = impl.parse_valid(src, d)
+    res = contained('%s with vv = %s' % (use, call), lambda: impl.bs.execute_script(model, opts), d)
+    if res[0] != 'ok':
+        raise Violation('%s with vv = %s ended the script with %s %r' % (use, call, res[0], res[1]), d, 'result-aborts')
+    if not is_value(res[1]) or not is_value(opts['globals'].get('vv')):
+        raise Violation('%s with vv = %s: %r / %r is not a BareScript value' % (use, call, res[1], opts['globals'].get('vv')), d, 'result-not-a-value')
+    if 'after' not in log:
+        raise Violation('execution did not continue after %s' % use, d, 'result-no-continue')
+    return res
 
 
 # ---- (e) deep and unbounded recursion of script functions ---------------------------------------------------------------
@@ -385,6 +431,7 @@ def plan(tier):
     specs += [{'kind': 'calls', 'n': 2500 if tier == 'quick' else 30000, 'k': i, 'names': names[i::kk]} for i in range(kk)]
     specs += [{'kind': 'host', 'n': 1200 if tier == 'quick' else 20000, 'k': 0}]
     specs += [{'kind': 'recursion', 'part': i, 'parts': 3} for i in range(3)]
+    specs += [{'kind': 'results', 'n': 2500 if tier == 'quick' else 30000, 'k': i} for i in range(1 if tier == 'quick' else 3)]
     specs += [{'kind': 'programs', 'n': 1000 if tier == 'quick' else 10000, 'k': i} for i in range(4 if tier == 'quick' else 8)]
     return specs
 
@@ -441,7 +488,26 @@ def run_shard(ctx, spec):
                 continue
             ctx.case(digest([sh, u, n, dbg, ve]), n >= 400 or sh == 'unbounded', ['recursion:' + sh, 'recursion-outcome:' + r[0]], {'shape': sh, 'depth': n})
         return
+    if spec['kind'] == 'results':
+        def rprop(c, use, pick, debug):
+            call, g = c
+            r = check_result_operators(call, g, use, pick, debug)
+            ctx.case(digest([call, g, use, pick]), True, ['result-of:' + call.split('(')[0], 'result-pick:' + pick, 'result:' + str(ref_type(r[1]))],
+                     {'call': call, 'globals': g, 'use': use})
+        run_hypothesis(ctx, rprop, [RESULT_CALLS, st.sampled_from(RESULT_USES), st.sampled_from(['whole', 'whole', 'first', 'values']), st.booleans()], spec['n'],
+                       salt=90 + spec['k'], rounds=4)
+        return
     if spec['kind'] == 'host':
+        # calls whose result cannot be allocated fail at once (no memory is touched): they are failed calls like any other
+        for name, args in [('stringRepeat', ['ab', 1e18]), ('stringRepeat', ['ab', 4e18]), ('stringRepeat', ['a' * 10, 9e17]), ('stringRepeat', ['ab', 1e30])]:
+            for debug in (False, True):
+                try:
+                    failed = check_library_call(name, args, debug)
+                except Violation as v:
+                    ctx.violation(v)
+                    continue
+                ctx.case(digest([name, args, debug]), True, ['fn:%s:%s' % (name, 'failed' if failed else 'ok'), 'unallocatable-result'], {'fn': name, 'args': args})
+
         def hprop(kinds, in_function, nested, debug):
             check_host_failures(kinds, in_function, nested, debug)
             ctx.case(digest([kinds, in_function, nested, debug]), any(k != 'ok' for k in kinds),
@@ -521,5 +587,7 @@ def replay(detail):
         check_recursion(detail['shape'], detail['use'], detail['n'], detail['debug'], detail['via_expression'])
     elif k == 'host':
         check_host_failures(detail['kinds'], detail['in_function'], detail['nested'], detail['debug'])
+    elif k == 'result':
+        check_result_operators(detail['call'], detail['globals'], detail['use'], detail['pick'], detail['debug'])
     else:
         check_program(detail['source'], dec(detail['globals'], fns))
